@@ -258,6 +258,7 @@ fn check_matrix_inverses(ctx: &Ctx, c: &mut Collector) {
 // chromatic adaptation
 
 mod adapt;
+mod camwhite;
 mod constants;
 mod matrix3;
 
@@ -308,6 +309,14 @@ fn replay(c: &mut Collector, rep: &Value) {
             let ctx = Ctx::from_args("C14").0;
             check_matrix_inverses(&ctx, c);
         }
+        "cam16-white" => {
+            let ctx = Ctx { only: Some("cam16-white".into()), ..Ctx::from_args("C14").0 };
+            let mut all = Collector::new();
+            camwhite::run(&ctx, &mut all);
+            let want = rep["signature"].as_str().unwrap_or("").to_string();
+            all.viol.retain(|k, _| *k == want);
+            c.merge(all);
+        }
         "constants" => {
             let ctx = Ctx::from_args("C14").0;
             constants::run(&ctx, c);
@@ -357,6 +366,7 @@ fn real_main() -> i32 {
     run_graph(&ctx, &pgd::f7_f64(), levels, &mut total);
     run_graph(&ctx, &pgd::f11_f64(), levels, &mut total);
     constants::run(&ctx, &mut total);
+    camwhite::run(&ctx, &mut total);
     check_matrix_inverses(&ctx, &mut total);
     adapt::run(&ctx, &mut total);
     matrix3::run(&ctx, &mut total);
